@@ -327,6 +327,44 @@ impl Hasher for RecordingHasher {
   }
 }
 
+/// Records the Hasher calls themselves: [kind, number, bytes, []] per call
+/// (the shape of the tokens of spec/HashM.tla). The value of a `write_u64`
+/// (a real hash) is not recorded.
+#[derive(Default)]
+struct FeedHasher(Vec<Value>);
+impl Hasher for FeedHasher {
+  fn finish(&self) -> u64 {
+    0
+  }
+  fn write(&mut self, bytes: &[u8]) {
+    self.0.push(json!(["w", 0, bytes_json(bytes), []]));
+  }
+  fn write_u8(&mut self, i: u8) {
+    self.0.push(json!(["u8", i, [], []]));
+  }
+  fn write_u16(&mut self, i: u16) {
+    self.0.push(json!(["u16", i, [], []]));
+  }
+  fn write_u32(&mut self, i: u32) {
+    self.0.push(json!(["u32", i, [], []]));
+  }
+  fn write_u64(&mut self, _i: u64) {
+    self.0.push(json!(["u64", 0, [], []]));
+  }
+  fn write_usize(&mut self, i: usize) {
+    self.0.push(json!(["usize", i, [], []]));
+  }
+  fn write_isize(&mut self, i: isize) {
+    self.0.push(json!(["isize", i, [], []]));
+  }
+  fn write_i32(&mut self, i: i32) {
+    self.0.push(json!(["i32", i, [], []]));
+  }
+  fn write_i64(&mut self, i: i64) {
+    self.0.push(json!(["i64", i, [], []]));
+  }
+}
+
 pub struct Machine {
   pub regs: Vec<Option<Val>>,
   /// registers shared (read-only) between the threads of a concurrent
@@ -588,6 +626,11 @@ impl Machine {
             let mut h = RecordingHasher::default();
             src.hash(&mut h);
             json!({"pre": bytes_json(&h.0)})
+          }
+          "feed" => {
+            let mut h = FeedHasher::default();
+            src.hash(&mut h);
+            json!({"feed": h.0})
           }
           "update" => {
             let mut h = twox_hash::XxHash64::default();
